@@ -105,6 +105,18 @@ CHECKS.update({
         design_ref="DESIGN.md section 5 C04"),
 })
 
+CHECKS.update({
+    "C13": dict(
+        category="model_checking",
+        technique="TLA+ spec of the external storage over histories (spec/ISExternal.tla) model-checked by TLC; histories from tlc -simulate replayed with real sessions",
+        text="TLC checks content-addressed lookup, persist-only-with-reference, remove-only-by-approved-trim, "
+             "new-never-survives-start and only-sessions-touch-storage over ALL histories of <= 5 (quick) / 7 (thorough) "
+             "steps, also with colliding hash prefixes; simulated histories of the same spec are replayed on a real "
+             "directory (real pytest sessions, edits by the harness) and the storage, the references and the lookups "
+             "are compared after every step",
+        design_ref="DESIGN.md section 5 C13"),
+})
+
 NOT_YET = {
 }
 
